@@ -464,6 +464,17 @@ fn constraint_edges(ctx: &Ctx) -> Vec<(usize, usize)> {
     v
 }
 
+/// the mid point or a quarter point of a random existing edge
+fn edge_point(rng: &mut Rng, ctx: &Ctx) -> (f64, f64) {
+    let tag = ctx.tri.tag();
+    let e = rng.below(ctx.tri.nde() as u64) as usize;
+    let (a, b) = ctx.tri.edge_ends(e);
+    let (pa, pb) = (ctx.tri.pos_bits(a), ctx.tri.pos_bits(b));
+    let (ax, ay, bx, by) = (val(tag, pa.0), val(tag, pa.1), val(tag, pb.0), val(tag, pb.1));
+    let w = *rng.pick(&[0.5, 0.5, 0.25, 0.75]);
+    (ax + (bx - ax) * w, ay + (by - ay) * w)
+}
+
 /// one generic query of the requested class
 fn query(rng: &mut Rng, ctx: &mut Ctx, fam: &Fam, class: &str) {
     let tag = ctx.tri.tag();
@@ -488,8 +499,19 @@ fn query(rng: &mut Rng, ctx: &mut Ctx, fam: &Fam, class: &str) {
             ctx.op(vec![s("hull")]);
         }
         "line" => {
-            let p = fam.qpoint(rng, ctx);
-            let q = if rng.chance(60) { p } else { fam.qpoint(rng, ctx) };
+            let mut p = fam.qpoint(rng, ctx);
+            let mut q = if rng.chance(60) { p } else { fam.qpoint(rng, ctx) };
+            // end points exactly in the interior of an existing edge (mid or quarter point; exact
+            // on the small-integer families): a segment that ends on the boundary of the face it
+            // has just entered, or starts on an edge
+            if ctx.tri.nde() >= 2 {
+                if rng.chance(300) {
+                    q = edge_point(rng, ctx);
+                }
+                if rng.chance(120) {
+                    p = edge_point(rng, ctx);
+                }
+            }
             ctx.op(vec![s("line"), ctok(tag, p.0), ctok(tag, p.1), ctok(tag, q.0), ctok(tag, q.1)]);
         }
         "lineh" => {
@@ -1033,8 +1055,8 @@ pub fn history(mode: &str, idx: u64, rng: &mut Rng, thorough: bool, timeout_ms: 
             let fams: &[&str] = match mode {
                 "vor" => &["grid", "grid", "unif", "circle", "offset"],
                 "interp" => &["grid", "grid", "unif", "circle"],
-                "nn" => &["grid", "grid", "grid", "line", "circle", "unif", "tiny", "tiny"],
-                "shape" | "line" => &["grid", "grid", "grid", "line", "circle", "unif"],
+                "nn" => &["grid", "grid", "grid", "line", "circle", "unif", "tiny", "tiny", "offset", "offset"],
+                "shape" | "line" => &["grid", "grid", "grid", "line", "circle", "unif", "offset"],
                 _ => &["grid", "grid", "line", "circle", "unif", "neardeg", "magn", "scaled", "wide"],
             };
             let fam = Fam::choose(rng, fams);
